@@ -93,6 +93,9 @@ CHECKS = {
  "C15": ("fault_enumeration", "controlling scheduler over cfg-guarded hook points (real threads, one granted at a time, blocked-thread detection) + crash images (directory copies at quiescent steps) recovered by the real StorageEngine::new",
          "held on every explored schedule and every crash image of the run: the served state is the serial-order state, survives a restart, and every crash image opens, contains every acknowledged insert and no acknowledged delete / unbegun insert",
          "crash model A (completed writes durable; image = copy while all writers are parked); schedules are seeded random walks over the hook points, not exhaustive", "3/C15"),
+ "C17": ("exploration", "model-based run-time monitor over hostile-name histories (registry model with incarnation-tagged tuples) + scheduler-driven interleavings of insert vs drop/re-create",
+         "held on every history and schedule of the run apart from the listed known finding (shard file-name collision between `a`/`b_c` and `a_b`/`c`): every KG's facts/rules/schemas equal the model after each operation and restart; nothing of a dropped incarnation is visible in a re-created KG",
+         "trusted: the registry model; schedules are seeded random walks over the insert/drop/create hook points", "3/C17"),
 }
 NOT_YET = "monitor not built yet in this round (design in DESIGN.md section 3); not claimed until a check exists"
 
